@@ -59,6 +59,10 @@ inline int probe_self_init(int v) { SelfInitProbe p(v); return p.b; }
 inline void probe_width_countdown(unsigned long n, int *a) { for(long i = 9; i >= n; i--) a[i] = 0; }
 inline int probe_width_clz(unsigned long v) { return __builtin_clz(v); }
 inline uintptr_t probe_width_mask(uintptr_t x, unsigned int a) { return x & ~(a - 1); }
+// Positive examples for Y.bytewise-on-bytes: a byte search over wide characters, a byte comparison standing in for the
+// equality of floating-point elements.
+inline const wchar_t *probe_bytewise_search(const wchar_t *s, size_t n) { return static_cast<const wchar_t *>(__builtin_memchr(s, 0, n * sizeof(wchar_t))); }
+inline bool probe_bytewise_equal(const double *a, const double *b, size_t n) { return !__builtin_memcmp(a, b, n * sizeof(double)); }
 
 } // namespace wit
 
